@@ -324,8 +324,43 @@ class Tr:
         self.inlined = []     # local constants replaced by their initialisers
         self.epoch = 0        # number of changes of a MUTABLE variable (and loop boundaries) passed so far
         self.local_epoch = {}
+        # (family st2c12) observer-guarded statements of the simulation part: dict(line, cond, where, effects); they are NOT part
+        # of main_prog (the driver model has no verbosity) - Proofs/ObserversMainP.v demands that each one is pure
+        self.observers = []
+        self.report_locals = []   # locals whose every use only reports (declared in the simulation part; skipped)
+        self.where = "pre"
         LOCALS.clear()
         ON_LOCAL_USE[0] = self.local_used
+
+    def status_line(self, s):
+        """`Display::printText(status_string(grid_t1, t, rotations) [+ report-only locals / string literals] [, false [, updatetime]])`"""
+        n = unwrap(s)
+        if n.get("kind") != "CallExpr" or callee_name(kids(n)[0]) != "printText":
+            return False
+        args = [c for c in kids(n)[1:] if c.get("kind") != "CXXDefaultArgExpr"]
+        if not args or [render(a) for a in args[1:]] not in ([], ["false"], ["false", "updatetime"]):
+            return False
+        leaves = []
+
+        def flat(e):
+            e = unwrap(e)
+            if e.get("kind") == "CXXOperatorCallExpr" and callee_name(kids(e)[0]) == "operator+" and len(kids(e)) == 3:
+                flat(kids(e)[1])
+                flat(kids(e)[2])
+            else:
+                leaves.append(e)
+        flat(args[0])
+        nstat = 0
+        for e in leaves:
+            if e.get("kind") == "StringLiteral":
+                continue
+            if e.get("kind") == "DeclRefExpr" and e["referencedDecl"].get("name") in self.report_locals:
+                continue
+            if re.match(r"^status_string\(grid_t1, (0|simulationstep / steps), rotations\)$", text_of(e) or ""):
+                nstat += 1
+                continue
+            return False
+        return nstat == 1
 
     def local_used(self, nm):
         if self.local_epoch.get(nm) is not None and self.local_epoch[nm] != self.epoch:
@@ -381,6 +416,13 @@ class Tr:
                     if want is not None and init != want:
                         raise TranslateError("initialiser of %s is %s, expected %s" % (nm, init, want))
                     self.skipped.append("%s = %s" % (nm, init))
+                elif not reads_observer(v) and not _interesting(v, False) and _std_type(v) and "*" not in v.get("type", {}).get("qualType", "") \
+                        and "&" not in v.get("type", {}).get("qualType", "") and v.get("storageClass") != "static" \
+                        and not obs_effects(s, set(), []) and nm not in MUTABLE and report_only(nm):
+                    # (family st2c12) a local that only reports (every use inside an observer-guarded statement or a log
+                    # statement), declared without any effect: not part of the model
+                    self.report_locals.append(nm)
+                    self.skipped.append("%s (report-only local)" % nm)
                 else:
                     # a local constant with a pure initialiser is carried as a let-binding: every use is
                     # replaced by the initialiser (same value: no variable it reads changes in between)
@@ -415,6 +457,18 @@ class Tr:
             ks = kids(s)
             if s.get("hasInit") or s.get("hasVar"):
                 raise TranslateError("if with init/variable")
+            if reads_observer(ks[0]):
+                # (family st2c12) a statement guarded by an observer option: classified, never part of the program of the model
+                ce = obs_effects(ks[0], set(), [])
+                if impure(ce):
+                    raise TranslateError("observer-guarded statement at line %s: its condition has an effect: if (%s): %s" % (
+                        line_of_node(s), text_of(ks[0]), "; ".join(show_oeff(x) for x in impure(ce))))
+                effs = list(ce)
+                loc = set()
+                for b in ks[1:]:
+                    obs_effects(b, loc, effs)
+                self.observers.append(dict(line=line_of_node(s) or 0, cond=text_of(ks[0]) or "?", where=self.where, effects=effs))
+                return []
             if getattr(self, "at_pending", None) and len(ks) == 2:
                 body = ks[1]
                 while body.get("kind") == "CompoundStmt" and len(kids(body)) == 1:
@@ -464,7 +518,7 @@ class Tr:
             if CALLS[txt] in ("IncOutNr", "IncStep"):
                 self.epoch += 1
             return [("call", CALLS[txt])]
-        if any(r.match(txt) for r in STATUS):
+        if any(r.match(txt) for r in STATUS) or self.status_line(s):
             return [("call", "(Print MStatus)")]
         if txt.startswith("delete "):
             self.skipped.append(txt)
@@ -508,7 +562,7 @@ def interesting(n):
     return _interesting(n, False)
 
 
-def _interesting(n, in_lambda):
+def _interesting(n, in_lambda, obs=True):
     """a `return` inside the body of a lambda expression returns from the lambda, not from main(); hook points, the flag
     and the modelled PhaseSpace calls are kept interesting there too (the lambda may be called anywhere later)"""
     k = n.get("kind")
@@ -518,7 +572,9 @@ def _interesting(n, in_lambda):
         return True
     if k == "CXXMemberCallExpr" and text_of(n) in SETUP_CALLS:
         return True
-    return any(_interesting(c, in_lambda or k == "LambdaExpr") for c in kids(n))
+    if obs and is_observer_ref(n):       # (family st2c12) verbosity: the statement stays visible in the skeleton
+        return True
+    return any(_interesting(c, in_lambda or k == "LambdaExpr", obs) for c in kids(n))
 
 
 def line_of_node(n):
@@ -535,11 +591,364 @@ def strings_in(n, acc):
     return acc
 
 
+# ---------------------------------------------------------------------------------------------------------
+# (family st2c12; seeds F3-I, F6-J) statements guarded by an OBSERVER option.
+# An observer option changes what is reported, never what is simulated (C12: "independent of how verbose the log is").
+# Verbosity is read through `opts.getVerbosity()`; a local variable initialised by exactly that call is an observer
+# variable.  Every `if` whose condition reads one is an observer-guarded statement: both branches are classified
+# statement by statement into the effects of coq/Model/Observers.v:
+#   OConst obj m      a const member function of an object declared outside (the implicit object argument is const-qualified)
+#   OModel c          a call the driver model knows (CALLS / SETUP_CALLS: updateXProjection(), integrate(), ...)
+#   OGetPast obj      `obj->getPastModulation()` (its effect is what Gen_DynQueue's dq_getpast_ops say)
+#   ONonConst obj m   any other non-const member function of an object declared outside the guarded statement
+#   OAssign v         assignment / increment of a variable declared outside that is not report-only
+#   OOther what       a loop, return, throw, new/delete, lambda, address-of, a function that is not in PURE_FUNCS, ...
+# Pure = only OConst effects.  Allowed without an effect: writing to a log sink (`sstream`, std::cout/cerr: `<<`, `.str("")`,
+# Display::printText), declaring and changing block-local variables, calling the functions of PURE_FUNCS, and assigning a
+# REPORT-ONLY variable: one whose every use in main() is inside an observer-guarded statement, a log statement,
+# `addParameterToGroup("/Info", ..)` or the initialisation / assignment of another report-only variable (today: `shield`).
+OBS_GETTERS = ("getVerbosity",)
+OBS_VARS = set()
+LOG_SINKS = ("sstream", "cout", "cerr", "clog")
+PURE_FUNCS = ("printText", "status_string", "fpclassify", "sqrt", "pow", "abs", "fabs", "exp", "log", "log10", "log2", "sin", "cos", "tan",
+              "asin", "acos", "atan", "atan2", "floor", "ceil", "round", "lround", "min", "max", "isnan", "isinf", "isfinite", "sign",
+              "to_string", "setprecision", "setw", "setfill", "two_pi", "move", "get", "size", "empty")
+STREAM_OPS = ("operator<<",)
+ASSIGN_OPS = ("operator=", "operator+=", "operator-=", "operator*=", "operator/=", "operator%=", "operator|=", "operator&=", "operator^=",
+              "operator<<=", "operator>>=", "operator++", "operator--")
+READ_OPS = ("operator->", "operator*", "operator[]", "operator==", "operator!=", "operator<", "operator>", "operator<=", "operator>=",
+            "operator+", "operator-", "operator/", "operator!", "operator bool", "operator&&", "operator||")
+NEUTRAL_KINDS = DROP + LITERALS + ("DeclRefExpr", "MemberExpr", "ConditionalOperator", "ArraySubscriptExpr", "StringLiteral", "CharacterLiteral",
+                                   "CXXDefaultArgExpr", "ImplicitValueInitExpr", "InitListExpr", "CXXStdInitializerListExpr", "CXXScalarValueInitExpr",
+                                   "UnaryExprOrTypeTraitExpr", "SubstNonTypeTemplateParmExpr", "OpaqueValueExpr", "CXXTemporaryObjectExpr",
+                                   "CXXConstructExpr", "VarDecl", "NullStmt", "CompoundStmt", "IfStmt", "DeclStmt")
+BAD_KINDS = {"ForStmt": "a loop", "WhileStmt": "a loop", "DoStmt": "a loop", "CXXForRangeStmt": "a loop", "SwitchStmt": "a switch",
+             "ReturnStmt": "a return", "BreakStmt": "a break", "ContinueStmt": "a continue", "GotoStmt": "a goto", "CXXTryStmt": "a try block",
+             "CXXThrowExpr": "a throw", "CXXNewExpr": "a new-expression", "CXXDeleteExpr": "a delete-expression", "LambdaExpr": "a lambda",
+             "StmtExpr": "a statement expression", "AsmStmt": "inline assembly", "GCCAsmStmt": "inline assembly"}
+MAIN_BODY = [None]        # body of main(), set by translate()
+_USES = [None]
+REPORT_ONLY = {}          # name -> True/False (memo of report_only)
+
+
+def is_observer_ref(n):
+    """the node itself is a read of an observer option: a reference to an observer variable or `opts.getVerbosity()`"""
+    k = n.get("kind")
+    if k == "DeclRefExpr" and n["referencedDecl"].get("kind") == "VarDecl" and n["referencedDecl"].get("name") in OBS_VARS:
+        return True
+    if k == "MemberExpr" and n.get("name") in OBS_GETTERS:
+        return True
+    return False
+
+
+def reads_observer(n):
+    return is_observer_ref(n) or any(reads_observer(c) for c in kids(n))
+
+
+def observer_decl(s):
+    """name of the variable when the statement is `[const] T v = opts.<observer getter>();`, else None"""
+    if s.get("kind") != "DeclStmt" or len(kids(s)) != 1 or kids(s)[0].get("kind") != "VarDecl" or not kids(kids(s)[0]):
+        return None
+    ini = unwrap(kids(kids(s)[0])[0])
+    if ini.get("kind") == "CXXMemberCallExpr" and len(kids(ini)) == 1 and kids(ini)[0].get("kind") == "MemberExpr" \
+            and kids(ini)[0].get("name") in OBS_GETTERS:
+        return kids(s)[0].get("name")
+    return None
+
+
+def root_var(n):
+    """the variable an lvalue / object expression is rooted in (through casts, ->, *, [], .member), else None"""
+    while True:
+        k = n.get("kind")
+        ks = kids(n)
+        if k == "DeclRefExpr":
+            return n["referencedDecl"].get("name")
+        if k in DROP or k in ("MemberExpr", "ArraySubscriptExpr") or (k == "UnaryOperator" and n.get("opcode") in ("*", "&")):
+            if not ks:
+                return None
+            n = ks[0]
+        elif k == "CXXOperatorCallExpr" and len(ks) >= 2:
+            n = ks[1]
+        elif k in ("CXXMemberCallExpr", "CallExpr") and ks:
+            n = ks[0]
+        else:
+            return None
+
+
+def callee_name(n):
+    c = n
+    while c.get("kind") in DROP and kids(c):
+        c = kids(c)[0]
+    if c.get("kind") == "DeclRefExpr":
+        return c["referencedDecl"].get("name")
+    if c.get("kind") == "MemberExpr":
+        return c.get("name")
+    return None
+
+
+def _const_object(obj, arrow):
+    qt = (obj.get("type") or {}).get("qualType", "")
+    return bool(re.match(r"^const [^*]*\*", qt)) if arrow else qt.startswith("const ")
+
+
+def _std_type(n):
+    qt = (n.get("type") or {}).get("qualType", "").replace("const ", "")
+    return qt.startswith(("std::", "basic_string", "basic_ostream", "__gnu_cxx::")) or _integral(n) or qt in ("float", "double", "long double") \
+        or qt.startswith("vfps::") and qt.endswith("_t")
+
+
+def _assign_target(tgt, loc, acc):
+    r = root_var(tgt)
+    if r is None:
+        acc.append(("other", "assignment to an expression that is not rooted in a variable"))
+    elif r in loc or r in LOG_SINKS or report_only(r):
+        pass
+    else:
+        acc.append(("assign", r))
+
+
+def obs_effects(n, loc, acc):
+    """appends the effects (see above) of the statement / expression n to acc; loc: variables declared inside the guarded statement"""
+    k = n.get("kind")
+    ks = kids(n)
+    if k in BAD_KINDS:
+        acc.append(("other", BAD_KINDS[k]))
+        return acc
+    if k == "DeclStmt":
+        for v in ks:
+            if v.get("kind") != "VarDecl" or v.get("storageClass") == "static":
+                acc.append(("other", "declaration of a %s%s" % ("static " if v.get("storageClass") == "static" else "", v.get("kind"))))
+                continue
+            loc.add(v.get("name"))
+            for c in kids(v):
+                obs_effects(c, loc, acc)
+        return acc
+    if k == "IfStmt" and (n.get("hasInit") or n.get("hasVar")):
+        acc.append(("other", "an if with init/variable"))
+        return acc
+    if k == "CXXMemberCallExpr":
+        callee = ks[0]
+        if callee.get("kind") != "MemberExpr" or not kids(callee):
+            acc.append(("other", "a member call through a pointer to member"))
+            return acc
+        obj, name = kids(callee)[0], callee.get("name")
+        root = root_var(obj) or "?"
+        txt = text_of(n)
+        if txt in SETUP_CALLS or txt in CALLS:
+            acc.append(("model", SETUP_CALLS.get(txt) or CALLS[txt]))
+        elif name == "getPastModulation":
+            acc.append(("getpast", root))
+        elif root in LOG_SINKS or root in loc or name in OBS_GETTERS:
+            pass
+        elif _const_object(obj, callee.get("isArrow")):
+            acc.append(("const", root, name))
+        else:
+            acc.append(("nonconst", root, name))
+        obs_effects(obj, loc, acc)
+        for c in ks[1:]:
+            obs_effects(c, loc, acc)
+        return acc
+    if k == "CXXOperatorCallExpr":
+        op = callee_name(ks[0]) or "?"
+        args = ks[1:]
+        if op in STREAM_OPS:
+            r = root_var(n)
+            if not (r in LOG_SINKS or r in loc):
+                acc.append(("other", "%s on `%s`, which is not a log sink" % (op, r)))
+        elif op in ASSIGN_OPS:
+            _assign_target(args[0], loc, acc)
+        elif op not in READ_OPS:
+            acc.append(("other", "the overloaded %s" % op))
+        for c in args:
+            obs_effects(c, loc, acc)
+        return acc
+    if k == "CallExpr":
+        f = callee_name(ks[0])
+        if f not in PURE_FUNCS:
+            acc.append(("other", "a call of %s (not known to be pure)" % (f or "a computed function")))
+        for c in ks[1:]:
+            obs_effects(c, loc, acc)
+        return acc
+    if k in ("BinaryOperator", "CompoundAssignOperator"):
+        op = n.get("opcode", "")
+        if k == "CompoundAssignOperator" or op == "=" or (op.endswith("=") and op not in ("==", "!=", "<=", ">=")):
+            _assign_target(ks[0], loc, acc)
+        elif op == ",":
+            pass
+    elif k == "UnaryOperator":
+        op = n.get("opcode")
+        if op in ("++", "--"):
+            _assign_target(ks[0], loc, acc)
+        elif op == "&" and root_var(ks[0]) not in loc:
+            acc.append(("other", "the address of `%s` is taken" % root_var(ks[0])))
+    elif k in ("CXXConstructExpr", "CXXTemporaryObjectExpr"):
+        if not _std_type(n):
+            acc.append(("other", "construction of a %s" % (n.get("type") or {}).get("qualType", "?")))
+    elif k not in NEUTRAL_KINDS:
+        acc.append(("other", "a %s" % k))
+        return acc
+    for c in ks:
+        obs_effects(c, loc, acc)
+    return acc
+
+
+def impure(effs):
+    return [e for e in effs if e[0] != "const"]
+
+
+def _is_log_stmt(st):
+    """`sstream << ..`, `sstream.str(..)`, `std::cout << ..`, `Display::printText(..)`"""
+    n = st
+    while n.get("kind") in DROP and len(kids(n)) == 1:
+        n = kids(n)[0]
+    k = n.get("kind")
+    if k == "CXXOperatorCallExpr" and callee_name(kids(n)[0]) in STREAM_OPS:
+        return root_var(n) in LOG_SINKS
+    if k == "CXXMemberCallExpr":
+        c = kids(n)[0]
+        return c.get("kind") == "MemberExpr" and bool(kids(c)) and root_var(kids(c)[0]) in LOG_SINKS
+    if k == "CallExpr":
+        return callee_name(kids(n)[0]) == "printText"
+    return False
+
+
+def _is_info_attribute(st):
+    n = st
+    while n.get("kind") in DROP and len(kids(n)) == 1:
+        n = kids(n)[0]
+    if n.get("kind") != "CXXMemberCallExpr" or kids(n)[0].get("name") != "addParameterToGroup" or len(kids(n)) < 2:
+        return False
+    a = unwrap(kids(n)[1])
+    return a.get("kind") == "StringLiteral" and a.get("value", "").strip('"') == "/Info"
+
+
+def _uses():
+    """name -> [(role, statement, inside an observer-guarded statement)] for every variable reference in main(); role `cond`: the
+    reference is in the header of an if / loop / switch, `stmt`: in a simple statement"""
+    if _USES[0] is not None:
+        return _USES[0]
+    idx = {}
+
+    def simple(st, in_obs, role):
+        for nm in names_in(st, set()):
+            idx.setdefault(nm, []).append((role, st, in_obs))
+
+    def walk(st, in_obs):
+        k = st.get("kind")
+        ks = kids(st)
+        if k == "CompoundStmt":
+            for c in ks:
+                walk(c, in_obs)
+        elif k == "IfStmt":
+            simple(ks[0], in_obs, "cond")
+            o = in_obs or reads_observer(ks[0])
+            for c in ks[1:]:
+                walk(c, o)
+        elif k in ("ForStmt", "WhileStmt", "DoStmt", "CXXForRangeStmt", "SwitchStmt", "CaseStmt", "DefaultStmt", "LabelStmt", "CXXTryStmt", "CXXCatchStmt"):
+            for c in ks:
+                if c.get("kind", "").endswith("Stmt") and c.get("kind") != "DeclStmt":
+                    walk(c, in_obs)
+                elif c.get("kind") != "VarDecl" or kids(c):
+                    simple(c, in_obs, "cond")
+        else:
+            simple(st, in_obs, "stmt")
+    if MAIN_BODY[0] is not None:
+        walk(MAIN_BODY[0], False)
+    _USES[0] = idx
+    return idx
+
+
+def report_only(var, seen=None):
+    """every use of the variable in main() only reports: inside an observer-guarded statement, in a log statement, as an /Info
+    attribute of the results file, or in the initialisation / assignment of itself or of another report-only variable"""
+    if var in REPORT_ONLY:
+        return REPORT_ONLY[var]
+    seen = seen or set()
+    if var in seen:
+        return True
+    seen = seen | {var}
+    uses = _uses().get(var)
+    ok = bool(uses)
+    for role, st, in_obs in (uses or []):
+        if in_obs:
+            continue
+        if role == "cond":
+            ok = False
+            break
+        n = st
+        while n.get("kind") in DROP and len(kids(n)) == 1:
+            n = kids(n)[0]
+        k = n.get("kind")
+        if k == "DeclStmt":
+            for v in kids(n):
+                if v.get("kind") == "VarDecl" and v.get("name") != var and var in names_in(v, set()) and not report_only(v.get("name"), seen):
+                    ok = False
+        elif (k == "BinaryOperator" and n.get("opcode") == "=") or k == "CompoundAssignOperator" or \
+                (k == "CXXOperatorCallExpr" and callee_name(kids(n)[0]) in ASSIGN_OPS):
+            tgt = kids(n)[1] if k == "CXXOperatorCallExpr" else kids(n)[0]
+            t = root_var(tgt)
+            if t != var and not (t is not None and report_only(t, seen)):
+                ok = False
+        elif _is_log_stmt(n) or _is_info_attribute(n):
+            pass
+        else:
+            ok = False
+        if not ok:
+            break
+    if len(seen) == 1:
+        REPORT_ONLY[var] = ok
+    return ok
+
+
+def observer_reads_elsewhere():
+    """textual scan of src/ and inc/ for reads of the observer option outside main.cpp (translated) and ProgramOptions (its
+    definition): none may exist, or verbosity reaches code this translator does not see"""
+    res = []
+    for p in sorted(glob.glob(os.path.join(REPO, "src", "**", "*.cpp"), recursive=True) +
+                    glob.glob(os.path.join(REPO, "inc", "**", "*.hpp"), recursive=True)):
+        rel = os.path.relpath(p, REPO)
+        if rel == os.path.join("src", "main.cpp") or "ProgramOptions" in rel:
+            continue
+        for i, line in enumerate(open(p, errors="replace"), 1):
+            code = line.split("//")[0]
+            if re.search(r"\b(%s)\b" % "|".join(OBS_GETTERS), code):
+                raise TranslateError("%s:%d reads an observer option (%s): %s" % (rel, i, "/".join(OBS_GETTERS), code.strip()[:100]))
+    return res
+
+
+def coq_oeff(e):
+    q = lambda t: '"%s"%%string' % str(t).replace('"', "'").replace("\\", "/")[:100]
+    if e[0] == "const":
+        return "OConst %s %s" % (q(e[1]), q(e[2]))
+    if e[0] == "model":
+        return "OModel %s" % e[1]
+    if e[0] == "getpast":
+        return "OGetPast %s" % q(e[1])
+    if e[0] == "nonconst":
+        return "ONonConst %s %s" % (q(e[1]), q(e[2]))
+    if e[0] == "assign":
+        return "OAssign %s" % q(e[1])
+    return "OOther %s" % q(e[1])
+
+
+def show_oeff(e):
+    return {"const": "calls the const %s of %s", "nonconst": "calls %s of %s, which is not a const member function",
+            "getpast": "calls getPastModulation() of %s%s (moves the pending records out)"}.get(e[0], "%s%s") % (
+        (e[2], e[1]) if e[0] in ("const", "nonconst") else ((e[1], "") if e[0] == "getpast" else
+        ({"model": "calls the model's ", "assign": "assigns ", "other": "contains "}[e[0]], e[1])))
+
+
+
 class SetupTr:
     def __init__(self):
         self.points = []          # labels in source order; point i is `Point (-(i+1))`
         self.opaque = {}          # n (source line of the first statement) -> number of statements merged
         self.conds = {}           # n -> dict(text, then_labels, else_labels, then_strings, else_strings)
+        # (family st2c12) observer-guarded statements: see "statements guarded by an OBSERVER option" above
+        self.in_obs = False       # inside a branch of an `if` whose condition reads an observer option
+        self.obs_conds = []       # ids of the conditions that read an observer option
+        self.pure = set()         # ids of opaque statements / conditions without any effect but OConst
+        self.effects = {}         # id -> effects of a statement / condition under an observer guard (for the report)
 
     def fresh(self, n, table):
         ln = line_of_node(n) or 0
@@ -551,7 +960,7 @@ class SetupTr:
         out = []
         for s in stmts:
             for it in self.stmt(s):
-                if it[0] == "opq" and out and out[-1][0] == "opq":
+                if it[0] == "opq" and out and out[-1][0] == "opq" and not self.in_obs and it[1] not in self.pure and out[-1][1] not in self.pure:
                     self.opaque[out[-1][1]] += 1        # a run of opaque statements is one opaque statement
                     del self.opaque[it[1]]
                 else:
@@ -578,6 +987,11 @@ class SetupTr:
     def opq(self, s):
         n = self.fresh(s, self.opaque)
         self.opaque[n] = 1
+        if self.in_obs:           # under an observer guard every statement is classified on its own
+            effs = obs_effects(s, self.obs_locals, [])
+            self.effects[n] = effs
+            if not impure(effs):
+                self.pure.add(n)
         return [("opq", n)]
 
     def stmt(self, s):
@@ -586,6 +1000,11 @@ class SetupTr:
             return []
         if k == "CompoundStmt":
             return self.stmt_list(kids(s))
+        if observer_decl(s):      # `const bool verbose = opts.getVerbosity();`
+            OBS_VARS.add(observer_decl(s))
+            it = self.opq(s)
+            self.pure.add(it[0][1])
+            return it
         if not interesting(s):
             return self.opq(s)
         if is_point(s):
@@ -605,14 +1024,26 @@ class SetupTr:
                 raise TranslateError("set-up: if with init/variable")
             if refs_abort(ks[0]):
                 raise TranslateError("set-up: the condition `%s` reads Display::abort" % (text_of(ks[0]) or "?"))
-            if interesting(ks[0]):
+            if _interesting(ks[0], False, obs=False):
                 raise TranslateError("set-up: hook point or return inside a condition")
             g = text_of(ks[0])
+            obs = reads_observer(ks[0])
+            was = self.in_obs
+            if obs and not was:
+                self.in_obs, self.obs_locals = True, set()
             t = self.block(ks[1])
             e = self.block(ks[2]) if len(ks) > 2 else []
+            self.in_obs = was
             if g in SETUP_GUARDS:
                 return [("if", "(CGuard %s)" % SETUP_GUARDS[g], t, e)]
             n = self.fresh(s, self.conds)
+            if obs:
+                self.obs_conds.append(n)
+            if obs or was:        # the condition itself is evaluated under / as an observer test: it has to be pure as well
+                effs = obs_effects(ks[0], set(), [])
+                self.effects[n] = effs
+                if not impure(effs):
+                    self.pure.add(n)
             self.conds[n] = dict(text=(g or "?")[:120], then_labels=self.labels_of(t, []), else_labels=self.labels_of(e, []),
                                  then_strings=strings_in(ks[1], []), else_strings=strings_in(ks[2], []) if len(ks) > 2 else [])
             return [("if", "(COpq %d)" % n, t, e)]
@@ -629,9 +1060,13 @@ class SetupTr:
         if txt == "abort = true":
             return [("setabort",)]
         if txt in SETUP_CALLS:
+            if self.in_obs:       # a call of the model under an observer guard: stays an SCall (the checker refuses it); for the report
+                self.effects[self.fresh(s, self.effects)] = [("model", SETUP_CALLS[txt])]
             return [("call", SETUP_CALLS[txt])]
         if refs_abort(s):
             raise TranslateError("set-up: Display::abort is accessed by `%s` (only `Display::abort = true;` is understood)" % (txt or k)[:160])
+        if reads_observer(s):
+            raise TranslateError("set-up: an observer option (verbosity) is read outside the condition of an `if`: %s %s" % (k, (txt or "")[:120]))
         raise TranslateError("set-up: %s holds a hook point, a return or a PhaseSpace call of the model and is not an if/try/block: %s" % (k, (txt or "")[:120]))
 
 
@@ -753,6 +1188,10 @@ def translate():
     if len(idx) != 1:
         raise TranslateError("marker statement 'Starting the simulation.' found %d times at top level" % len(idx))
     LOCALS.clear()
+    OBS_VARS.clear()
+    REPORT_ONLY.clear()
+    _USES[0] = None
+    MAIN_BODY[0] = body
     hi = handler_index(st)
     if len(hi) != 1 or hi[0] >= idx[0]:
         raise TranslateError("statement installing the SIGINT handler found %d times at top level before the marker" % len(hi))
@@ -769,10 +1208,12 @@ def translate():
     tr = Tr()
     pre = tr.stmt_list(sim[:wl[0]])
     tr.boundary()
+    tr.where = "body"
     if "simulationstep = 0" not in tr.skipped or "outstepnr = 0" not in tr.skipped:
         raise TranslateError("step counters are not initialised to 0 before the loop: %s" % tr.skipped)
     bodyb = tr.block(wbody)
     tr.boundary()
+    tr.where = "post"
     post = tr.stmt_list(sim[wl[0] + 1:])
     if not post or post[-1] != ("call", "Exit"):
         raise TranslateError("the simulation part does not end in return")
@@ -802,13 +1243,16 @@ def translate():
         refs += [(ln, wr, i > idx[0]) for (ln, wr) in acc]
     nd = nondet_sources()
     aw = abort_writes_elsewhere()
+    observer_reads_elsewhere()
+    if not OBS_VARS:
+        raise TranslateError("no variable of main() is initialised by opts.%s(): the observer analysis has nothing to follow" % OBS_GETTERS[0])
     out = []
     out.append("(* GENERATED on every run by translate/mainloop2coq.py from src/main.cpp (main, from")
     out.append("   \"Starting the simulation.\" to return). Do not edit.")
     out.append("   skipped (no effect on the modelled state): %s" % "; ".join(tr.skipped))
     out.append("   local constants replaced by their (pure) initialisers: %s *)" % ("; ".join(tr.inlined) or "none"))
     out.append("From Coq Require Import List ZArith String.")
-    out.append("From Inovesa Require Import Model.Driver Model.Setup.")
+    out.append("From Inovesa Require Import Model.Driver Model.Setup Model.Observers.")
     out.append("Import ListNotations.")
     out.append("Local Open Scope Z_scope.")
     out.append("Definition main_pre : blk :=\n  %s." % coq_blk(pre))
@@ -824,6 +1268,23 @@ def translate():
                ";\n   ".join('(%d, "%s"%%string)' % (n, c["text"].replace('"', "'").replace("\\", "/")) for n, c in sorted(su.conds.items())))
     out.append("(* opaque statements of the set-up: (n, number of consecutive statements merged into it) *)")
     out.append("Definition setup_opaque : list (Z * Z) :=\n  [%s]." % "; ".join("(%d, %d)" % x for x in sorted(su.opaque.items())))
+    q = lambda t: '"%s"%%string' % str(t).replace('"', "'").replace("\\", "/")[:100]
+    out.append("(* observer options (verbosity): variables of main() initialised by opts.%s() *)" % "/".join(OBS_GETTERS))
+    out.append("Definition observer_vars : list string :=\n  [%s]." % "; ".join(q(v) for v in sorted(OBS_VARS)))
+    out.append("(* opaque conditions of the set-up that read an observer option *)")
+    out.append("Definition setup_observer_conds : list Z :=\n  [%s]." % "; ".join(str(n) for n in sorted(su.obs_conds)))
+    out.append("(* opaque statements / conditions of the set-up the translator found pure (only const member functions of objects declared outside,")
+    out.append("   writes to log sinks, block-local and report-only variables): everything under an observer guard has to be in this list *)")
+    out.append("Definition setup_pure_opaque : list Z :=\n  [%s]." % "; ".join(str(n) for n in sorted(su.pure)))
+    out.append("(* what the statements / conditions under an observer guard of the set-up do: (n, effects) *)")
+    out.append("Definition setup_observed_effects : list (Z * list oeff) :=\n  [%s]." %
+               ";\n   ".join("(%d, [%s])" % (n, "; ".join(coq_oeff(e) for e in effs)) for n, effs in sorted(su.effects.items())))
+    out.append("(* variables assigned under an observer guard whose every use only reports (log, /Info attribute, other such variables) *)")
+    out.append("Definition report_only_vars : list string :=\n  [%s]." % "; ".join(q(v) for v in sorted(v for v, ok in REPORT_ONLY.items() if ok)))
+    out.append("(* observer-guarded statements of the simulation part (NOT part of main_prog): line, condition, effects *)")
+    out.append("Definition loop_observers : list ostmt :=\n  [%s]." %
+               ";\n   ".join("mkostmt %d %s [%s]" % (o["line"], q(o["where"] + ": if (" + o["cond"] + ")"), "; ".join(coq_oeff(e) for e in o["effects"]))
+                              for o in tr.observers))
     out.append("(* VERIF_POINT labels of the translated part, index = argument of Point *)")
     out.append("Definition point_names : list (Z * string) :=\n  [%s]." %
                ";\n   ".join('(%d, "%s"%%string)' % (i, l) for i, l in enumerate(tr.points)))
@@ -838,7 +1299,10 @@ def translate():
     out.append("Definition nondet_sources : list (string * Z * string) :=\n  [%s]." %
                ";\n   ".join('("%s"%%string, %d, "%s"%%string)' % x for x in nd))
     return "\n".join(out) + "\n", dict(points=tr.points, setup_points=setup_pts, pre=pre, body=bodyb, post=post,
-                                       abort_refs=refs, nondet=nd, setup=setup_items, setup_conds=su.conds, setup_opaque=su.opaque)
+                                       abort_refs=refs, nondet=nd, setup=setup_items, setup_conds=su.conds, setup_opaque=su.opaque,
+                                       observer_vars=sorted(OBS_VARS), setup_observer_conds=sorted(su.obs_conds), setup_pure=sorted(su.pure),
+                                       setup_effects=su.effects, loop_observers=tr.observers,
+                                       report_only=sorted(v for v, ok in REPORT_ONLY.items() if ok))
 
 
 if __name__ == "__main__":
